@@ -140,6 +140,21 @@ def gen_history_program(rng: random.Random, idx: int) -> dict[str, Any]:
         shared = rng.choice(["shared.s", "shared.bin", "shared.tbl"])
         text = {"shared.s": ".include 'shared.s'", "shared.bin": ".incbin 'shared.bin'", "shared.tbl": f".table 'shared.tbl'\n.text '{rng.choice(TEXT_POOL[:3] + TEXT_POOL[5:])}'"}[shared]
         prog.root.append({"k": "stmt", "t": text})
+    if rng.random() < 0.06:
+        # a program that evaluates nothing after code generation: the abandoned evaluation below is the
+        # very last thing the evaluator does for this assembly
+        fl = f"{prefix}fl"
+        tiny = progen.gen_program(random.Random(1), "low", {"data"}, [], size=2, prefix=prefix)
+        tiny.root = [{"k": "stmt", "t": f"{fl} := 1\n.if {rng.choice([f'-{fl} < 0', f'{fl} + 1 > 0', f'{fl} & 1 != 0'])} {{\n    nop\n}}\n{rng.choice(['nop', 'inx', 'rts'])}"}]
+        tiny.global_labels = []
+        tiny.table_addr = None
+        return {"prog": tiny.to_record(), "pool": False, "shared": None, "prefix": prefix}
+    if rng.random() < 0.15:
+        # the last expression this program evaluates is one whose evaluation is abandoned half-way (a
+        # condition the evaluator gives up on counts as false): scratch state of the evaluator must not
+        # survive into the next assembly
+        fl = f"{prefix}fl"
+        prog.root.append({"k": "stmt", "t": f"{fl} := 1\n.if {rng.choice([f'-{fl} < 0', f'{fl} + 1 > 0', f'{fl} & 1 != 0', f'({fl} + 2) * 3 >= 1'])} {{\n    nop\n}}"})
     return {"prog": prog.to_record(), "pool": bool(pool), "shared": shared, "prefix": prefix}
 
 
